@@ -7,9 +7,9 @@ import UnifexModel.Proto.ScopeV2
 namespace Unifex.Props.C08_v2b
 open Unifex.Core Unifex.Proto.ScopeV2
 
-/-- two racing joins: the C08 clauses hold (but not `noLateTouch`, see
-    `C08.v2_two_joins_late_touch`). -/
-theorem v2_two_joins_safe : ∀ s, Reach (sys cfgTwoJoins) s → safe cfgTwoJoins s = true :=
+/-- two racing joins: all C08 clauses and no late touch of the scope (the second `end_scope` does
+    not set the event) -/
+theorem v2_two_joins_safe : ∀ s, Reach (sys cfgTwoJoins) s → safeQ cfgTwoJoins s = true :=
   safe_of_check _ { coded with M := 751 } 400 _ (by decide +kernel)
 
 end Unifex.Props.C08_v2b
